@@ -1300,7 +1300,29 @@ impl TCompactInputProtocol<&mut Bytes> {
         } else {
             self.read_varint::<u32>()? as i32
         };
-        Ok((element_type, element_count as usize))
+        Ok((element_type, self.checked_container_size(element_count, 1)?))
+    }
+
+    /// Every container entry occupies at least `min_entry_len` bytes, so a declared count
+    /// that cannot fit in the remaining input (or a negative one) is rejected instead of
+    /// being trusted by callers that pre-allocate from it.
+    #[inline]
+    fn checked_container_size(
+        &self,
+        size: i32,
+        min_entry_len: usize,
+    ) -> Result<usize, ThriftException> {
+        if size < 0 || (size as usize).saturating_mul(min_entry_len) > self.trans.len() {
+            return Err(new_protocol_exception(
+                ProtocolExceptionKind::InvalidData,
+                format!(
+                    "container size {} exceeds the remaining {} bytes",
+                    size,
+                    self.trans.len()
+                ),
+            ));
+        }
+        Ok(size as usize)
     }
 }
 
@@ -1764,7 +1786,7 @@ impl TInputProtocol for TCompactInputProtocol<&mut Bytes> {
             Ok(TMapIdentifier::new(
                 key_type,
                 val_type,
-                element_count as usize,
+                self.checked_container_size(element_count, 2)?,
             ))
         }
     }
